@@ -48,6 +48,7 @@ GHOST static long gv_new(int t) {
   vs_rt_exit();
   return v;
 }
+GHOST static void gv_set_pusher(long v, int id) { v_pusher[v] = id; }
 GHOST static void gv_pushed(long v) {
   vs_drain();  // response = effects globally visible (TSO mode: operation boundaries are fences)
   v_pushed[v] = 1;
@@ -451,6 +452,7 @@ static int q_do_op(int t, op_t* op) {
   if (!strcmp(op->name, "push")) {
     for (int i = 0; i < op->a; i++) {
       long v = gv_new(t);
+      if (q_kind == Q_MPSCR) gv_set_pusher(v, 100 + op->c);  // relaxed queue: "one producer" = one lane; a thread may own several lanes
       int id = lin_begin(t, OP_PUSH, v);
       q_push_val(t, v, 0, op->c);
       lin_end(id, OP_PUSH, 0);
@@ -540,10 +542,18 @@ const harness_t h_queue = {"queue", 0, 0, 0, 0, 0, q_entry};
 static DSVAR lockfree_ring_buffer_t* rb;
 static DSVAR int rb_cap;
 static DSVAR long rb_push_fail, rb_pop_fail;
+static DSVAR uint64_t rb_base;
 static void rb_setup(void) {
   int lg = (int)cfg_get("cap_log2", 1);
   rb_cap = 1 << lg;
   rb = lockfree_ring_buffer_create((uint32_t)lg);
+  // the state an empty buffer is in after index_base push/pop pairs: both positions equal, every slot NULL
+  long base = cfg_get("index_base", 0);
+  if (base > 0) {
+    rb->high += (uint64_t)base;
+    rb->low += (uint64_t)base;
+  }
+  rb_base = rb->high;
   vs_watch(rb, sizeof *rb + sizeof(void*) * (size_t)rb_cap);
 }
 GHOST static void grb_occupancy(void) {
@@ -610,7 +620,7 @@ static void rb_final(void) {
   vs_label_add("ring_pop_fail", (uint64_t)rb_pop_fail);
   vs_label_add("overlapping_ops", (uint64_t)n_overlap_ops);
   vs_label_max("ring_index_reached", (uint64_t)rb->high);
-  if (n_overlap_ops >= 1 && (long)rb->high > rb_cap) rt_nontrivial("ring");
+  if (n_overlap_ops >= 1 && (uint64_t)rb->high - rb_base > (uint64_t)rb_cap) rt_nontrivial("ring");
 }
 static const ds_harness_t ds_ring = {rb_setup, 0, rb_do_op, rb_final};
 static void rb_entry(void* a) {
@@ -648,11 +658,52 @@ GHOST static void gwq_session_end(int s, uint64_t at) {
   vs_rt_exit();
 }
 GHOST static void gwq_note_queued(long v) { wq_was_queued[v] = 1; }
+static DSVAR int wq_presession = -1;
+static void wq_work_loop(int t, int s, int work) {
+  for (;;) {
+    uint64_t inv = gv_take_begin();
+    uint64_t at = gwq_tick();
+    work_queue_item_t* out = 0;
+    int g = work_queue_get_work(&wq, &out);
+    if (g == WORK_QUEUE_EMPTY) {
+      gv_take_end_empty();
+      gwq_session_end(s, at);
+      break;
+    }
+    gv_taken(t, (long)out->data, inv, "work_queue_get_work");
+    free(out);
+    if (work) ds_work(t, work);
+  }
+}
 static void wq_setup(void) {
   work_queue_init(&wq);
   vs_watch(&wq, sizeof wq);
+  wq_presession = -1;
+  long base = cfg_get("session_base", 0);
+  if (base > 0) {
+    // start inside a worker session that has already handed out 'base' items: thread 0 pushed the first item, was told to
+    // start working, and 'base' further push / get_work pairs have gone by (in_count and out_count both advanced by base);
+    // thread 0 continues that session with its first op, "wresume"
+    long v = gv_new(0);
+    work_queue_item_t* it = malloc(sizeof *it);
+    it->data = (void*)v;
+    int r = work_queue_push(&wq, it);
+    gv_pushed(v);
+    if (r != WORK_QUEUE_START_WORKING) vs_violation("two_workers", "work queue: the first push into a fresh queue was not told to start working");
+    wq_presession = gwq_session_begin();
+    g_add(&wq_started, 1);
+    wq.in_count += base;
+    wq.out_count += base;
+  }
 }
 static int wq_do_op(int t, op_t* op) {
+  if (t == 0 && wq_presession >= 0) {
+    // thread 0 is the worker of the session the case starts in (cfg session_base)
+    int s = wq_presession;
+    wq_presession = -1;
+    wq_work_loop(t, s, op->b);
+  }
+  if (!strcmp(op->name, "wresume")) return 1;
   if (strcmp(op->name, "wpush")) return 0;
   for (int i = 0; i < op->a; i++) {
     long v = gv_new(t);
@@ -664,20 +715,7 @@ static int wq_do_op(int t, op_t* op) {
     if (r == WORK_QUEUE_START_WORKING) {
       int s = gwq_session_begin();
       g_add(&wq_started, 1);
-      for (;;) {
-        uint64_t inv = gv_take_begin();
-        uint64_t at = gwq_tick();
-        work_queue_item_t* out = 0;
-        int g = work_queue_get_work(&wq, &out);
-        if (g == WORK_QUEUE_EMPTY) {
-          gv_take_end_empty();
-          gwq_session_end(s, at);
-          break;
-        }
-        gv_taken(t, (long)out->data, inv, "work_queue_get_work");
-        free(out);
-        if (op->b) ds_work(t, op->b);
-      }
+      wq_work_loop(t, s, op->b);
     } else {
       g_add(&wq_queued, 1);
     }
